@@ -50,6 +50,7 @@ type expr struct {
 	ops  []string // nary: operator before kid i (i >= 1)
 	leaf int      // index into prog.leaves
 	fn   string   // call: Number? String? Date?
+	bare bool     // nary: comparison operands are printed without parentheses (x > a and x < b)
 }
 
 type leaf struct {
@@ -65,6 +66,8 @@ type prog struct {
 	confuse   int  // how many deliberately ill-typed operands may still be generated
 	tracing   bool // operands may be wrapped in the tracing block t_
 	usesTrace bool
+	// leaves the partial variant should keep literal / turn into parameters (range tests: variable operand, literal bounds)
+	maskSet, maskClear uint32
 }
 
 var numLits = []string{"0", "1", "-1", "2", "3", "5", "7", "10", "100", ".5", ".1", ".25", "1.5", "-2.5", "1e3", "1e-3", "255", "0xff", "65535", "65536",
@@ -144,6 +147,7 @@ func (p *prog) top(r *rand.Rand, t ty, depth int) *expr {
 }
 
 func (p *prog) gen(r *rand.Rand, t ty, depth int) *expr {
+	saveTracing := p.tracing
 	if p.confuse > 0 && r.IntN(10) == 0 { // deliberate type confusion
 		p.confuse--
 		t = ty(r.IntN(int(tAny)))
@@ -263,11 +267,29 @@ func (p *prog) gen(r *rand.Rand, t ty, depth int) *expr {
 			return tri(tBool)
 		default:
 			// a range test written as two comparisons on the same operand (range folding)
+			p.tracing, p.ops["range"] = false, true // the tested operand must be a plain variable for the range rule
+			saveT := p.usesTrace
 			x := p.gen(r, ct, 0)
-			p.ops["range"] = true
-			lo := &expr{op: []string{">", ">="}[r.IntN(2)], kids: []*expr{x, p.gen(r, ct, 0)}}
-			hi := &expr{op: []string{"<", "<="}[r.IntN(2)], kids: []*expr{x, p.gen(r, ct, 0)}}
-			e := &expr{op: "nary", kids: []*expr{lo, hi}, ops: []string{"", "and"}}
+			bound := func() *expr {
+				if r.IntN(5) < 2 && x.op == "leaf" { // a bound equal to the operand: the boundary case of > vs >=
+					p.leaves = append(p.leaves, leaf{p.leaves[x.leaf].lit, p.leaves[x.leaf].t})
+					return &expr{op: "leaf", leaf: len(p.leaves) - 1}
+				}
+				return p.gen(r, ct, 0)
+			}
+			lo := &expr{op: []string{">", ">="}[r.IntN(2)], kids: []*expr{x, bound()}}
+			hi := &expr{op: []string{"<", "<="}[r.IntN(2)], kids: []*expr{x, bound()}}
+			for _, b := range []*expr{lo.kids[1], hi.kids[1]} {
+				if b.op == "leaf" && b.leaf < 32 {
+					p.maskSet |= 1 << uint(b.leaf)
+				}
+			}
+			if x.op == "leaf" && x.leaf < 32 {
+				p.maskClear |= 1 << uint(x.leaf)
+			}
+			p.tracing = saveTracing
+			_ = saveT
+			e := &expr{op: "nary", kids: []*expr{lo, hi}, ops: []string{"", "and"}, bare: r.IntN(4) != 0}
 			if r.IntN(3) == 0 {
 				e.kids = append(e.kids, p.gen(r, tBool, d))
 				e.ops = append(e.ops, "and")
@@ -315,7 +337,11 @@ func (e *expr) print(sb *strings.Builder, name func(int) string) {
 			if i > 0 {
 				sb.WriteString(" " + e.ops[i] + " ")
 			}
-			kid(k)
+			if e.bare && len(k.kids) == 2 && k.kids[0].op == "leaf" && k.kids[1].op == "leaf" && strings.ContainsAny(k.op, "<>") {
+				k.print(sb, name) // comparisons bind tighter than and
+			} else {
+				kid(k)
+			}
 		}
 	case "?:":
 		kid(e.kids[0])
@@ -879,21 +905,40 @@ func (pg *program) judge(variant int, ref *outcome) verdict {
 				v.category = "operand-evaluation-added"
 				return v
 			}
-			if oka && okb && a.ListSize() >= 3 && sameValue(a.ListGet(a.ListSize()-1), b.ListGet(b.ListSize()-1)) {
-				// same final value, same number of traced evaluations: a permutation of the trace?
-				used := make([]bool, a.ListSize()-1)
-				perm := true
-				for i := 0; i < a.ListSize()-1 && perm; i++ {
-					perm = false
-					for j := 0; j < b.ListSize()-1; j++ {
+			if oka && okb && !lastDigits(ref.val, got.val) {
+				// same number of entries: the same entries in another order (possibly with last-digit differences)?
+				n := a.ListSize()
+				used := make([]bool, n)
+				inexact, all := 0, true
+				for i := 0; i < n && all; i++ {
+					found := -1
+					for j := 0; j < n; j++ {
 						if !used[j] && sameValue(a.ListGet(i), b.ListGet(j)) {
-							used[j], perm = true, true
+							found = j
 							break
 						}
 					}
+					if found < 0 {
+						for j := 0; j < n; j++ {
+							if !used[j] && lastDigits(a.ListGet(i), b.ListGet(j)) {
+								found = j
+								inexact++
+								break
+							}
+						}
+					}
+					if found < 0 {
+						all = false
+					} else {
+						used[found] = true
+					}
 				}
-				if perm {
+				if all && inexact == 0 {
 					v.category = "operand-evaluation-order"
+					return v
+				}
+				if all {
+					v.category = "result-differs-in-last-digits"
 					return v
 				}
 			}
@@ -908,9 +953,12 @@ func (pg *program) judge(variant int, ref *outcome) verdict {
 			return v
 		}
 		v.category = "exception-differs"
-		if got.compile {
-			if sub, ok := pg.deadOperandError(normErr(got.err)); ok {
+		if sub, ok := pg.deadOperandError(normErr(got.err)); ok {
+			if got.compile {
 				v.category, v.note = "unevaluated-operand-error-raised-at-compile-time", sub
+			} else {
+				// the program contains two failing operations; regrouping changed which one is reached first
+				v.category, v.note = "exception-order", sub
 			}
 		}
 	case ref.err != "":
@@ -1041,7 +1089,7 @@ func TestVerifC30(t *testing.T) {
 		"an exception raised while compiling a variant counts as the same exception when its text (minus the position prefix) equals the run-time text; '?: requires boolean' / 'if requires boolean' = 'conditionals require true or false'")
 	defer rep.Finish()
 
-	n := vk.N(24000, 2400000)
+	n := vk.N(20000, 1200000)
 	for i := 0; i < n; i++ {
 		r := vk.RandFor(30, i)
 		confuse := 0
@@ -1067,6 +1115,9 @@ func TestVerifC30(t *testing.T) {
 			rep.Count("programs_with_traced_operands", 1)
 		}
 		pg.mask = r.Uint32()
+		if r.IntN(2) == 0 {
+			pg.mask = (pg.mask | pg.p.maskSet) &^ pg.p.maskClear
+		}
 		pg.force = r.IntN(2) == 0
 		if pg.force {
 			rep.Count("programs_with_forced_propagation_pass", 1)
@@ -1174,7 +1225,7 @@ func TestVerifC30(t *testing.T) {
 					"reference_outcome": v.ref.String(), "variant_outcome": v.got.String(), "category": v.category}
 			}
 			class := "C30/" + final.category + "/" + op
-			if final.category == "unevaluated-operand-error-raised-at-compile-time" {
+			if final.category == "unevaluated-operand-error-raised-at-compile-time" || final.category == "exception-order" {
 				class = "C30/" + final.category
 			}
 			key := variantNames[variant] + ": " + strings.ReplaceAll(final.srcGot, "\n", " ") + " | run-time args " + strings.Join(final.argText, ", ") +
